@@ -282,7 +282,7 @@ Section PIPELINE.
           au_credential := ap_credential ap; au_token := ap_token ap;
           au_signature := ap_signature ap; au_timestamp := ts |}.
 
-  Definition allowed_mismatch_ns : Z := (src_ALLOWED_MISMATCH_MINUTES * 60 * ns_per_s)%Z.
+  Definition allowed_mismatch_ns : Z := src_allowed_mismatch_ns.
 
   Definition prevalidate (au : authenticator) (region service : bytes) (now mismatch : Z) : res unit :=
     let t := au_timestamp au in
